@@ -35,7 +35,7 @@ META = {
     ],
     'assumptions': ['A1', 'A2', 'A5', 'A7', 'L_f is a valid Lipschitz constant of grad f (assumed for the parts)'],
     'not_decided': ['finite-difference agreement of gradients of non-pointwise built-ins (GroupL1Norm, NuclearNorm, QuadraticForm with operator)',
-                    'SeparableSum (product-space) gradients'],
+                    'SeparableSum (product-space) gradients - both only in the bounded functional-pool stand-in'],
 }
 
 
@@ -351,12 +351,25 @@ def units(tier, seed):
     us = [unit_derived(k) for k in KINDS]
     us += [unit_quadratic_form(k) for k in ('vector_only', 'vector_only_zero_const', 'operator')]
     us += [unit_overload(d) for d in ('__mul__', '__rmul__', '__add__', '__sub__')]
+    from contracts import grouplib
+    us.append(grouplib.unit_huber_gradient())
     us.append(unit_functional_pool_bounded())
     us.append(unit_canary())
     return us
 
 
 def replay(ob):
+    if ob.get('unit', '').startswith('group/huber'):
+        from contracts import funcpool
+        for nm in sorted(funcpool.pool()):
+            if nm.startswith('Huber/pow'):
+                try:
+                    bad = funcpool.check_grad(nm)[0]
+                except Exception as e:
+                    bad = 'raised %s: %s' % (type(e).__name__, e)
+                if bad:
+                    return {'reproduced': True, 'detail': bad, 'input': {'functional': nm}}
+        return {'reproduced': False, 'detail': 'gradient agrees with central differences for the Huber/pow* pool instances'}
     if ob.get('unit', '').startswith('functional-pool/'):
         from contracts import funcpool
         try:
